@@ -14,7 +14,7 @@ import typing
 import z3
 
 from . import val as V
-from .val import SV, Obj, MList, MDict, PDict, PList, norm, lower, deep_symbolic
+from .val import SV, Obj, MList, MDict, PDict, PList, MSet, PSet, norm, lower, deep_symbolic
 from .interp import (Unsupported, PyRaise, PathAbort, Closure, BoundMethod, SymMethod, Env, Path,
                      NativeBound, explore, _concrete_list_items)
 
@@ -93,7 +93,7 @@ LIST_METHODS = {"append", "extend", "index", "insert", "count", "sort"}
 
 
 def sym_attr(I, o, name):
-    if isinstance(o, (V.DDEntry, V.MDefaultDict)):
+    if isinstance(o, (V.DDEntry, V.MDefaultDict, MSet)):
         return SymMethod(o, name)
     if isinstance(o, MList):
         return SymMethod(o, name)
@@ -198,6 +198,10 @@ def contains(I, container, x):
     if isinstance(container, str) or (isinstance(container, SV) and entailed(I, V.is_VStr(container.t))):
         _used("str.__contains__")
         return z3.Contains(sym_str(I, container), sym_str(I, x))
+    if isinstance(container, MSet):
+        return V.vl_contains(container.elems, lower(x))
+    if isinstance(container, SV) and is_set_term(I, container.t):
+        return V.vl_contains(V.set_elems(container.t), lower(x))
     if isinstance(container, MList):
         return V.vl_contains(V.vl(container.t), lower(x))
     if isinstance(container, MDict):
@@ -442,8 +446,25 @@ def exit_context(I, cm, exc):
 
 # --------------------------------------------------------------------------- loops and comprehensions over symbolic sequences
 
-def _seq_term(I, it):
+def order_obligation(I, what, lineno):
+    """iteration over a set in an order-sensitive position: the result depends on the interpreter's hash seed"""
+    fnq = "?"
+    allow = getattr(I.ctx, "order_insensitive", set())
+    key = (what, lineno)
+    if lineno in allow or key in allow or I.ctx.__dict__.get("in_order_insensitive_call", 0) > 0:
+        return
+    I.p.oblige(f"ord@line{lineno}", z3.BoolVal(False), "ord",
+               detail=f"{what} over a set: the iteration order (hash seed) reaches an order-sensitive result", assume_after=False)
+
+
+def _seq_term(I, it, lineno=None, what="iteration"):
     """If `it` is a symbolic sequence with non-concrete spine return its VL term."""
+    if isinstance(it, MSet):
+        order_obligation(I, what, lineno)
+        return it.elems
+    if isinstance(it, SV) and is_set_term(I, it.t):
+        order_obligation(I, what, lineno)
+        return V.set_elems(it.t)
     if isinstance(it, (MList, V.DDEntry)):
         it = SV(it.t)
     if isinstance(it, SV):
@@ -474,7 +495,7 @@ def symbolic_comprehension(I, e, env, module):
         return None
     g = e.generators[0]
     it = I.eval(g.iter, env, module)
-    xs = _seq_term(I, it)
+    xs = _seq_term(I, it, getattr(e, "lineno", None), "comprehension")
     if xs is None:
         # concrete spine: evaluate normally, but we already evaluated the iterable once; re-evaluation
         # is harmless for the pure expressions used as iterables in the code under contract
@@ -749,7 +770,7 @@ def symbolic_for(I, st, it, env, module):
     elif isinstance(it, Obj) and hasattr(it.cls, "__pyvc_for__"):
         return it.cls.__pyvc_for__(I, st, it, env, module)
     else:
-        xs = _seq_term(I, it) if isinstance(it, (SV, MList, V.DDEntry)) else None
+        xs = _seq_term(I, it, st.lineno, "for loop") if isinstance(it, (SV, MList, V.DDEntry, MSet)) else None
     if xs is None:
         return False
     fnq = env.lookup("__fn__").qualname if env.has("__fn__") else "?"
@@ -833,6 +854,24 @@ MUTATING = {"append", "extend", "insert", "pop", "remove", "clear", "sort", "rev
 
 
 def call_sym_method(I, recv, name, args, kwargs):
+    if isinstance(recv, MSet):
+        if name == "add":
+            recv.elems = V.vsnoc(recv.elems, lower(args[0]))
+            return None
+        if name == "update":
+            o = args[0]
+            if isinstance(o, MSet):
+                recv.elems = V.vconcat(recv.elems, o.elems)
+            else:
+                ot = lower(o)
+                recv.elems = V.vconcat(recv.elems, V.set_elems(ot) if is_set_term(I, ot) else V.vl(ot))
+            return None
+        if name in ("union", "copy"):
+            r = MSet(recv.elems)
+            for o in args:
+                call_sym_method(I, r, "update", [o], {})
+            return r
+        raise Unsupported(f"set.{name} on a symbolic set")
     if isinstance(recv, V.DDEntry):
         d, k = recv.d, recv.k
         if name == "append":
@@ -1132,6 +1171,19 @@ def _dict_copy(I, d, args, kwargs):
     return PDict(d)
 
 
+@method_model(set, "add", "update")
+def _set_add(I, st, args, kwargs):
+    if not deep_symbolic(args):
+        return NotImplemented
+    if not isinstance(st, PSet):
+        raise Unsupported("native set with symbolic elements")
+    m = MSet(V.vlist([lower(x) for x in sorted(set.__iter__(st), key=repr)]))
+    set.clear(st)
+    st.m = m
+    name = "add" if not isinstance(args[0], (MSet, list, set, tuple)) and not (isinstance(args[0], SV) and (is_set_term(I, args[0].t) or entailed(I, V.is_VList(args[0].t)))) else "update"
+    return call_sym_method(I, m, name, args, kwargs)
+
+
 @method_model(list, "extend")
 def _list_extend(I, l, args, kwargs):
     other = args[0]
@@ -1292,6 +1344,10 @@ def _sorted(I, args, kwargs):
     xs = args[0]
     if isinstance(xs, (list, tuple, set, frozenset, dict)) and not deep_symbolic(xs) and not kwargs:
         return sorted(xs)
+    if isinstance(xs, MSet) or (isinstance(xs, SV) and is_set_term(I, xs.t)):
+        el = xs.elems if isinstance(xs, MSet) else V.set_elems(xs.t)
+        _used("sorted(set): uninterpreted py_sorted(members); independent of the enumeration order (assumed)")
+        return SV(V.VList(PY_SORTED(el)))
     if isinstance(xs, (SV, MList)) and not kwargs:
         t = lower(xs)
         require_kind(I, t, V.is_VList, "sorted(arg)")
@@ -1442,18 +1498,32 @@ class CharSetOf:
 V.REG.register(CharSetOf, ["s"])
 
 
+def is_set_term(I, t):
+    return entailed(I, z3.And(V.is_VObj(t), V.cls_of(t) == V.REG.info(V.PySet).cid))
+
+
 @model(set)
 def _set(I, args, kwargs):
     if not args:
-        return set()
+        return PSet()
+    if isinstance(args[0], MSet):
+        return MSet(args[0].elems)
+    if isinstance(args[0], SV) and is_set_term(I, args[0].t):
+        return MSet(V.set_elems(args[0].t))
     x = args[0]
     if isinstance(x, SV) and entailed(I, V.is_VStr(x.t)):
         return Obj(CharSetOf, {"s": x})
     if isinstance(x, (SV, MList)):
-        raise Unsupported("set() of a symbolic sequence")
+        t = lower(x)
+        if entailed(I, V.is_VList(t)):
+            _used("set(list): members are the list's elements (duplicates irrelevant to membership)")
+            return MSet(V.vl(t))
+        if entailed(I, V.is_VDict(t)):
+            raise Unsupported("set(dict)")
+        raise Unsupported("set() of a symbolic value of unknown kind")
     if deep_symbolic(x):
         raise Unsupported("set() with symbolic elements")
-    return set(I.iterate(x))
+    return PSet(I.iterate(x))
 
 
 def charset_eq(I, cs, concrete):
